@@ -84,7 +84,9 @@ def run_history(n: int, edges: dict, name: str, ops: list, tolerate_known: bool)
 						return f'{name}: harness problem, the cold run fails: {cold[k]}'
 					if warm[k] == cold[k]:
 						continue
-					stale = [s for s in seen if key_of(edges, s, a) == key_of(edges, w.state, a) and cone_of(edges, s, a) != cone_of(edges, w.state, a)]
+					# the listed finding: some module b of a's dependency cone (a included) finds a symbol-table file written for another
+					# state of b's own cone, because b's key (own content + direct imports) is the same; a's output inherits b's stale types
+					stale = [s for s in seen for b in sorted(cone_dist(edges, a)) if key_of(edges, s, b) == key_of(edges, w.state, b) and cone_of(edges, s, b) != cone_of(edges, w.state, b)]
 					if stale and tolerate_known and enabled:
 						cover('known-class')
 						NOTES.append(f'{name} (step {i}): {k} is restored from the symbol table of source state {stale[0]} (listed finding {KNOWN_CLASS})')
